@@ -14,6 +14,7 @@ use std::time::Instant;
 pub use serde_json::{Value as Json, json};
 
 pub mod gen_entry;
+pub mod qgate;
 
 // ------------------------------------------------------------------------------------------------
 // PRNG: splitmix64; every random choice of a run derives from the one seed.
